@@ -6,5 +6,5 @@ CONSTANTS
   Level = "quick"
   RecordHist = FALSE
 INVARIANTS TypeOK Consistent TableTotal CloseThenOpen
-PROPERTIES AllAnswered CloseAnswered
+PROPERTIES AllAnswered CloseAnswered ErrKeepsState
 CHECK_DEADLOCK FALSE
